@@ -35,6 +35,16 @@ def buildChain : List RawLevel → R Chain
     let rest ← buildChain ls
     pure (⟨l.id, l.type, l.seq, pl⟩ :: rest)
 
+/-- `W` (the whole chromosome) or a chunk window `a b strand` -/
+def pTarget : P (Option (Blk × Strand)) := do
+  match (← get) with
+  | "W" :: rest => set rest; pure none
+  | _ => do let a ← pNat; let b ← pNat; let s ← pStrand; pure (some ((a, b), s))
+
+/-- `<location> ; ~<letters>`, or `E` -/
+def showRelocated (x : Location × List Char) : String :=
+  if x.1 == .empty then "E" else showLocation x.1 ++ " ; ~" ++ String.ofList x.2
+
 def showLift (r : R (Location × Chain)) : String :=
   showR (fun x => showLocation x.1) r
 
@@ -55,6 +65,16 @@ def ops : List (String × Op) := [
         let x ← Loc.build c
         let w1 ← mkSingle a1 b1 s1
         let up ← liftOnce x w1
-        chunkDown up (a2, b2) s2)))
+        chunkDown up (a2, b2) s2))),
+  ("relocate", do
+      -- relocate <GENOME> <a1> <b1> <s1> <TXLOC | N> <CHILD> <a2 b2 s2 | W>
+      let g ← pChars; let a1 ← pNat; let b1 ← pNat; let s1 ← pStrand
+      let tx ← pOptRawLoc; let c ← pRawLoc; let tgt ← pTarget
+      pure (showR showRelocated (do
+        let t ← match tx with
+          | none => pure none
+          | some r => do let x ← Loc.build r; pure (some x)
+        let x ← Loc.build c
+        relocate g (a1, b1) s1 t x tgt)))
 ]
 end BioCantor.Driver.Lift
